@@ -526,7 +526,8 @@ def timeouts(ctx, rep, rule):
                           loc(ctx, "async_client", e))
                 for x in [x for j, x in calls(p, "receiver") if j < i]:
                     sw = [n_ for n_, r_ in x.handlers if r_ in ("@continue", None) and n_ not in ("BlockingIOError",) and n_ != "AIOTimeoutError"]
-                    retry = any(n_ == "BlockingIOError" and r_ == "@continue" for n_, r_ in x.handlers)
+                    # `except BlockingIOError: continue`, or a handler that just falls through to the end of the loop body
+                    retry = any(n_ == "BlockingIOError" and (r_ == "@continue" or (r_ is None and x.loops)) for n_, r_ in x.handlers)
                     rep.check(rule, "async_client._recv|only-BlockingIOError-retried", not sw, "errors of the receiver reach the caller",
                               "exceptions %s raised by the receiver are swallowed by the retry loop: a decoding or SNMP error turns into a timeout" % sw,
                               loc(ctx, "async_client", x))
